@@ -380,6 +380,18 @@ def _sched_dedup_cycle(case):
     return any(t.get("run") != "always" and reach(i, i) for i, t in enumerate(ts))
 
 
+def _c03_waiter_status(m):
+    """C03-dedup-waiter-status: the outcome a deduplicated task's waiters receive is the error exactly as the one real execution
+    returned it to ITS caller: a top-level call that became a waiter of an execution started as a dependency gets the bare exit
+    status (process exits 1); the caller of a waiter on a top-level execution gets a doubly wrapped error (201 even with
+    --exit-code).  Narrow: the trace is accepted, every other verdict is 1, only C03s is 0, and the trace contains a waiter."""
+    if m.get("domain") != "sched" or not m["model"].startswith("accept "):
+        return False
+    v = dict(t.split("=") for t in m["model"].split()[1:] if "=" in t)
+    others_ok = all(x == "1" for k, x in v.items() if k != "C03s")
+    return others_ok and v.get("C03s") == "0" and " waiter " in m["case_line"]
+
+
 def _c07_once_cycle(m):
     """C07-once-cycle-deadlocks: a reference cycle through a run: once / when_changed task never ends: the inner reference
     waits for the execution that is its own ancestor.  Narrow: the run hung, the model confirms the reached configuration
@@ -390,6 +402,7 @@ def _c07_once_cycle(m):
 
 FINDING_PREDICATES = {
     "C07-once-cycle-deadlocks": _c07_once_cycle,
+    "C03-dedup-waiter-status": _c03_waiter_status,
     "C11-dynamic-cache-ignores-env": _c11_env_cache,
     "C19-cli-values-are-templated": _c19_values_templated,
     "C19-no-value-text-deleted": _c19_no_value_deleted,
@@ -539,5 +552,11 @@ FINDING_PREDICATES.update({
     "C05-timestamp-missing-generates": _c05(lambda m, f: f.get("kind") == "missing-generates-skipped" and f.get("method") == "timestamp"),
 })
 
-HOOK_COMMITS = []
+# the sched domain serves seven properties: each compares acceptance + its own verdict(s)
+for _pid, _keys in {"C01": ["C01"], "C02": ["C02"], "C03": ["C03", "C03s"], "C06": ["C06"], "C07": ["C07"], "C13": ["C13"], "C14": ["C14"]}.items():
+    for _d in PROPS[_pid]["domains"]:
+        if _d["name"] == "sched":
+            _d["verdict_keys"] = _keys
+
+HOOK_COMMITS = ["339bb5a", "c6219b0", "409314f", "54a7dc6", "a37d6ee", "6c1ad25"]
 NOT_YET = {}
